@@ -921,6 +921,59 @@ def _restore_equivalent(repo: Repo, census: dict, report: dict[str, object]) -> 
             report.setdefault("restored_equivalent", []).append(fn.where)  # type: ignore[union-attr]
 
 
+class _MatchToIf(ast.NodeTransformer):
+    """`match X: case <literal> | <literal>: ... case _: ...` (literal / dotted-name / None patterns, optional guards, no captures) is the
+    if / elif / else chain over `X == literal`; X must be call-free, or a plain name is bound to it first"""
+
+    def __init__(self) -> None:
+        self.done = 0
+        self.n = 0
+
+    def _test(self, subj: ast.expr, pat: ast.pattern) -> ast.expr | None:
+        if isinstance(pat, ast.MatchValue) and isinstance(pat.value, (ast.Constant, ast.Attribute)):
+            return ast.Compare(copy.deepcopy(subj), [ast.Eq()], [pat.value])
+        if isinstance(pat, ast.MatchSingleton):
+            return ast.Compare(copy.deepcopy(subj), [ast.Is()], [ast.Constant(pat.value)])
+        if isinstance(pat, ast.MatchOr):
+            parts = [self._test(subj, p_) for p_ in pat.patterns]
+            if any(p_ is None for p_ in parts):
+                return None
+            if all(isinstance(p_, ast.MatchValue) and isinstance(p_.value, ast.Constant) for p_ in pat.patterns):
+                return ast.Compare(copy.deepcopy(subj), [ast.In()], [ast.Tuple([p_.value for p_ in pat.patterns], ast.Load())])  # type: ignore[attr-defined]
+            return ast.BoolOp(ast.Or(), parts)  # type: ignore[arg-type]
+        return None
+
+    def visit_Match(self, node: ast.Match) -> Any:
+        self.generic_visit(node)
+        pre: list[ast.stmt] = []
+        subj = node.subject
+        if any(isinstance(x, (ast.Call, ast.NamedExpr, ast.Await)) for x in ast.walk(subj)):
+            self.n += 1
+            name = f"__subject{self.n}"
+            pre = [ast.Assign([ast.Name(name, ast.Store())], subj)]
+            subj = ast.Name(name, ast.Load())
+        arms: list[tuple[ast.expr | None, list[ast.stmt]]] = []
+        for case in node.cases:
+            wildcard = isinstance(case.pattern, ast.MatchAs) and case.pattern.pattern is None and case.pattern.name is None
+            t = None if wildcard else self._test(subj, case.pattern)
+            if t is None and not wildcard:
+                return node  # a capturing / structural pattern: left as it is
+            if case.guard is not None:
+                t = case.guard if t is None else ast.BoolOp(ast.And(), [t, case.guard])
+            arms.append((t, case.body))
+            if t is None:
+                break  # nothing after an unguarded wildcard is reachable
+        tail: list[ast.stmt] = []
+        for t, body in reversed(arms):
+            tail = body if t is None else [ast.If(t, body, tail)]
+        self.done += 1
+        out = pre + (tail or [ast.Pass()])
+        for o in out:
+            ast.copy_location(o, node)
+            ast.fix_missing_locations(o)
+        return out
+
+
 def _bound_in(fn: ast.FunctionDef) -> set[str]:
     """parameters and names the function binds itself: a module constant of the same name is shadowed there"""
     a = fn.args
@@ -1032,6 +1085,14 @@ def _new_constants(mi: ModuleInfo, known_globals: set[str], repo: "Repo | None" 
 def normalize_repo(repo: Repo) -> dict[str, object]:
     census = _load_census().get("modules", {})
     report: dict[str, object] = {"inlined_helpers": [], "kept_helpers": [], "propagated_constants": [], "gave_up": []}
+    # `match` statements over literals are if-chains
+    for mi in repo.modules.values():
+        for fn in list(mi.functions.values()) + [m for c in mi.classes.values() for m in c.methods.values()]:
+            if any(isinstance(n, ast.Match) for n in ast.walk(fn.node)):
+                mt = _MatchToIf()
+                fn.node = mt.visit(fn.node)
+                if mt.done:
+                    report.setdefault("match_to_if", []).append(f"{fn.where}: {mt.done}")  # type: ignore[union-attr]
     # new module-level constants are folded into the functions first: a literal that was given a name is still that literal
     for mi in repo.modules.values():
         known = census.get(mi.name)
